@@ -440,8 +440,8 @@ class MahalanobisMixin(BaseMetricLearner, MetricTransformer,
       distance : float
         The distance between u and v according to the new metric.
       """
-      u = validate_vector(u)
-      v = validate_vector(v)
+      u = validate_vector(u, dtype=np.float64)
+      v = validate_vector(v, dtype=np.float64)
       transformed_diff = (u - v).dot(components_T)
       dist = np.dot(transformed_diff, transformed_diff.T)
       if not squared:
